@@ -53,13 +53,15 @@ SvarS(st) == << <<>>, SvarT(st[2]) >>
 InstOK(gen, T) == LET m == TMatch(StvT(gen), T, <<>>) IN m # ErrAL /\ \A i \in 1..Len(m) : m[i][2][1] = "tc"
 
 \* ---- reference meaning of one extension item on a value ----
-\* "ok" the item is installed;  "readd" an existing name would be shadowed: refused with TheoryException;  "bad" the item is invalid
+\* "ok" the item is installed (a theorem of an existing name REPLACES it, as the kernel always allowed; a type that is declared again
+\* is the business of Redeclares below);  "readd" a constant that exists and is not overloaded: refused with TheoryException;
+\* "bad" the item is invalid
 Status(V, it, checked) ==
-  CASE IKind(it) = "type"  -> IF IName(it) \in NamesOf(V.ty) /\ ValOf(V.ty, IName(it)) # IArity(it) THEN "readd" ELSE "ok"
+  CASE IKind(it) = "type"  -> "ok"
     [] IKind(it) = "const" -> IF IName(it) \in V.ov
                               THEN (IF IName(it) \in NamesOf(V.co) /\ InstOK(ValOf(V.co, IName(it)), IType(it)) THEN "ok" ELSE "bad")
                               ELSE (IF IName(it) \in NamesOf(V.co) THEN "readd" ELSE "ok")
-    [] IKind(it) = "thm"   -> IF checked /\ IPrf(it) = "bad" THEN "bad" ELSE IF IName(it) \in NamesOf(V.th) THEN "readd" ELSE "ok"
+    [] IKind(it) = "thm"   -> IF checked /\ IPrf(it) = "bad" THEN "bad" ELSE "ok"
     [] IKind(it) \in {"over", "attr"} -> "ok"
     [] OTHER -> "bad"
 Install(V, it) ==
@@ -99,6 +101,14 @@ FirstBadFrom(V, items, i, checked) ==
   ELSE IF Status(V, items[i], checked) # "ok" THEN i
   ELSE FirstBadFrom(Install(V, items[i]), items, i + 1, checked)
 FirstBad(V, items, checked) == FirstBadFrom(V, items, 1, checked)
+\* a type declared again with ANOTHER arity is not judged (the kernel shadows it; refusing it would be as good): a run that reaches
+\* such an item before any item that is not "ok" is recorded as a divergence, whatever it does
+RECURSIVE RedeclFrom(_,_,_,_)
+RedeclFrom(V, items, i, checked) ==
+  IF i > Len(items) \/ Status(V, items[i], checked) # "ok" THEN FALSE
+  ELSE IF IKind(items[i]) = "type" /\ IName(items[i]) \in NamesOf(V.ty) /\ ValOf(V.ty, IName(items[i])) # IArity(items[i]) THEN TRUE
+  ELSE RedeclFrom(Install(V, items[i]), items, i + 1, checked)
+Redeclares(V, items, checked) == RedeclFrom(V, items, 1, checked)
 
 Core(P) == [ty |-> P.ty, co |-> P.co, ov |-> P.ov, th |-> P.th, at |-> P.at]
 \* everything observable except the keys of the cache
@@ -123,7 +133,8 @@ ExtClauses(B, A, items, checked, out, exc) ==
       \* stricter kernel may refuse; when every item is "ok" the statement still allows raising, in front of any item
       stops == IF k = 0 THEN 0..(IF n = 0 THEN 0 ELSE n - 1)
                ELSE {k - 1} \cup { m - 1 : m \in { m \in 1..(k - 1) : Maybe(AfterItems(B, items, m - 1), items[m]) } }
-  IN IF out = "ok"
+  IN IF Redeclares(B, items, checked) THEN {}
+     ELSE IF out = "ok"
      THEN (IF k = 0 THEN (IF A = AfterItems(B, items, n) THEN {} ELSE {"InstalledInOrder"})
            ELSE IF st = "readd" THEN {"ReaddRefused"} ELSE {})
      ELSE \* raised: exactly a prefix is installed; when the state shows that an item that re-adds a name was installed and the run went on,
@@ -133,7 +144,7 @@ ExtClauses(B, A, items, checked, out, exc) ==
           \cup (IF st = "readd" /\ k = n /\ A = AfterItems(B, items, k - 1) /\ exc # "TheoryException" THEN {"RefusalIsTheoryException"} ELSE {})
 ExtDiverges(B, A, items, checked, out) ==
   LET k == FirstBad(B, items, checked) IN
-  IF out = "ok" THEN k # 0 ELSE (k = 0 \/ A # AfterItems(B, items, k - 1))
+  Redeclares(B, items, checked) \/ (IF out = "ok" THEN k # 0 ELSE (k = 0 \/ A # AfterItems(B, items, k - 1)))
 \* direct add_theorem(name, th): installs / replaces the theorem, or refuses and changes nothing
 PutClauses(B, A, name, st, out) ==
   IF out = "ok" THEN (IF A = [B EXCEPT !.th = Upd(@, name, st)] THEN {} ELSE {"InstalledInOrder"})
